@@ -231,7 +231,10 @@ def _run_unit(args):
     idx, unit, tier = args
     try:
         pin_defaults()
+        _t0 = time.time()
         r = _WORK_FN(unit, tier)
+        if os.environ.get('VERIF_PROF'):
+            sys.stderr.write('PROF %.1fs %r\n' % (time.time() - _t0, unit))
         if get_defaults() != BASE_DEFAULTS:
             pin_defaults()
         return idx, r, None
